@@ -58,6 +58,20 @@ for _f in ("hello", "mygit", "mygrep"):  # the examples shipped with complgen, i
         pass
 
 
+# Differences found with this self-test that are REAL (script text vs compiled automaton), not reader bugs:
+REAL = {
+    ('cmd (a b || a c);', "*"): "one literal at two fallback levels from one state: the (state, literal id) match table keeps one target",
+    ('cmd a\\\\ b;', "bash"): "bash constants do not escape backslash: \"a\\\" swallows its closing quote",
+}
+REAL_LOOKUP = "fish code indexes the table differently from the table's pairing ($tos[$subword_id]; flattened / unsplit command cells)"
+
+
+def real(g, sh, bad):
+    if all(": lookup: " in b for b in bad):
+        return REAL_LOOKUP
+    return REAL.get((g, sh)) or REAL.get((g, "*"))
+
+
 EMPTY_CMD = {"bash": ":", "pwsh": "# empty command"}  # what these emitters print for an empty {{{ }}}
 
 
@@ -132,7 +146,7 @@ def main():
     if len(lines) != len(cases):
         print("recorder returned %d lines for %d cases: %s" % (len(lines), len(cases), rec.stderr[-300:]))
         return 2
-    stats = dict((sh, [0, 0, 0]) for sh in SHELLS)  # same, different, not compiled
+    stats = dict((sh, [0, 0, 0, 0]) for sh in SHELLS)  # same, different, not compiled, different for a known real reason
     shown = 0
     for (g, sh), line in zip(cases, lines):
         obs = line.get("obs", {})
@@ -140,7 +154,7 @@ def main():
         if p.returncode != 0 or obs.get("verdict") != "ok":
             stats[sh][2] += 1
             if verbose or (p.returncode == 0) != (obs.get("verdict") == "ok"):
-                print("NOT COMPILED %-4s %s   (binary rc %d, recorder %s)" % (sh, g, p.returncode, obs.get("verdict")))
+                print("NOT COMPILED %-4s %s   (binary rc %d, recorder %s)" % (sh, json.dumps(g)[:160], p.returncode, obs.get("verdict")))
             continue
         r = readers.read_script(p.stdout, sh, obs.get("command", "cmd"))
         bad = check(r, obs, sh)
@@ -151,14 +165,15 @@ def main():
         if len([c for c in consts if c["role"] == "literal"]) != want:
             bad.append("string_constants: %d literal constants, %d literals" % (len([c for c in consts if c["role"] == "literal"]), want))
         json.dumps(r)  # must be serialisable
-        stats[sh][1 if bad else 0] += 1
-        if bad and (shown < 12 or verbose):
+        why = real(g, sh, bad) if bad else None
+        stats[sh][3 if why else 1 if bad else 0] += 1
+        if bad and (shown < 16 or verbose):
             shown += 1
-            print("DIFF %-4s %s" % (sh, g))
-            for b in bad[:4]:
-                print("       " + b)
+            print("%s %-4s %s" % ("REAL" if why else "DIFF", sh, json.dumps(g)[:120]))
+            for b in ([why] if why else []) + bad[:3]:
+                print("       " + b[:240])
     for sh in SHELLS:
-        print("%-4s same %3d  different %3d  not compiled %3d" % tuple([sh] + stats[sh]))
+        print("%-4s same %3d  different %3d  not compiled %3d  known real discrepancy %3d" % tuple([sh] + stats[sh]))
     return 1 if any(v[1] for v in stats.values()) else 0
 
 
